@@ -470,7 +470,20 @@ func fwrGenRuleSet(rt *rapid.T, n int, incoming bool, otherDirOneIn int) []fwrRu
 			r.Groups = append([]string{}, r.Groups...)
 			f := fwrGenRule(rt, dir)
 			for k := rapid.IntRange(1, 2).Draw(rt, "variantFields"); k > 0; k-- {
-				switch rapid.IntRange(0, 9).Draw(rt, "variantField") {
+				switch rapid.IntRange(0, 12).Draw(rt, "variantField") {
+				case 10, 11, 12:
+					// same bucket, the other kind of CA selector (ca_name next to ca_sha and vice versa),
+					// and usually a different peer selector, so that one CA rule fails on another clause
+					// while the other one decides
+					if rapid.Bool().Draw(rt, "vCAKind") {
+						r.CAName, r.CASha = rapid.SampledFrom(fwrRuleCANames).Draw(rt, "vCAName"), ""
+					} else {
+						r.CAName, r.CASha = "", rapid.SampledFrom(fwrRuleCAShas).Draw(rt, "vCASha")
+					}
+					if rapid.Bool().Draw(rt, "vCAGroups") {
+						r.Groups = f.Groups
+						r.Host = f.Host
+					}
 				case 7, 8, 9:
 					// nested remote prefixes with different local_cidr in one bucket
 					r.CIDR = rapid.SampledFrom(fwrRuleCIDRs[1:]).Draw(rt, "vCIDR2")
